@@ -127,6 +127,11 @@ def stamp_source(tree):
             put(node, "stmt")
         elif isinstance(node, (ast.Pass, ast.Break, ast.Continue)):
             put(node, "noop")
+        elif isinstance(node, (ast.If, ast.While)) and not isinstance(node.test, ast.BoolOp):
+            # the test expression object itself ends up as the last element of a
+            # block (and/or tests are desugared into assignments instead)
+            put(node.test, "test")
+            node.test._owner_vid = None
     return stamps
 
 
